@@ -10,6 +10,7 @@ package consensus
 import (
 	"crypto/ecdsa"
 	"fmt"
+	"os"
 	"sort"
 	"strings"
 	"testing"
@@ -158,6 +159,15 @@ func TestVerifC01(t *testing.T) {
 	seed := vfSeed()
 	cases := vfN(40)
 	for c := 0; c < cases; c++ {
+		if only := vfEnvInt("VERIF_ONLY", -1); only >= 0 && c != only {
+			continue
+		}
+		// a fixed share of the cases are DIRECTED adversarial scenarios (c01dir_test.go): the first
+		// five cases of every shard (one per scenario) and ~15% of the rest
+		if kind, dr := vfDirectedKind(seed, c); kind != "" {
+			vfDirectedCase(t, o, seed, c, kind, dr)
+			continue
+		}
 		r := vfFork(seed, uint64(c))
 		n, stake, byz := vfPickConfig(r)
 		desc := fmt.Sprintf("seed=%d case=%d n=%d stake=%v byz=%v", seed, c, n, stake, vfSortedKeys(byz))
@@ -260,47 +270,103 @@ func TestVerifC01(t *testing.T) {
 					break
 				}
 			}
-			if viol != "" {
-				o.Viol("disagreement", desc+" "+viol)
-			}
-			// hand every height's vote history to the model's trace checker
-			var hs []uint64
-			for h := range net.trace {
-				hs = append(hs, h)
-			}
-			sort.Slice(hs, func(a, b int) bool { return hs[a] < hs[b] })
-			maxRound := uint32(0)
-			nDecided := 0
-			for _, h := range hs {
-				var decs []string
-				for _, k := range decided[h] {
-					decs = append(decs, k)
-				}
-				sort.Strings(decs)
-				if len(decs) > 0 {
-					nDecided++
-				}
-				line := vfTraceLine(net, h, decs)
-				o.Op("agree", line, "good")
-				for _, e := range net.trace[h] {
-					if e.round > maxRound {
-						maxRound = e.round
-					}
-				}
-				if c < 2 && h == hs[0] {
-					o.Sample(desc + " :: " + line)
-				}
-			}
-			o.Stat(fmt.Sprintf("validators.%d", n))
-			o.Stat(fmt.Sprintf("byzantine.%d", len(byz)))
-			o.StatN("heights.decided", nDecided)
-			if maxRound > 1 {
-				o.Stat("schedules.with-round>1")
-			}
-			o.Case(desc, nDecided > 0)
+			vfEndOfCase(o, net, decided, desc, viol, c, n, len(byz))
 		})
 		_ = panicked
 	}
+}
+
+// vfEndOfCase: the end-of-case checks shared by the random and the directed cases: a
+// disagreement found by vfCheckAgreement is reported, every height's vote history goes to the
+// model's trace checker, distribution counters.
+func vfEndOfCase(o *vfOut, net *vfNet, decided map[uint64]map[int]string, desc, viol string, c, n, nbyz int) {
+	if viol != "" {
+		o.Viol("disagreement", desc+" "+viol)
+	}
+	// hand every height's vote history to the model's trace checker
+	var hs []uint64
+	for h := range net.trace {
+		hs = append(hs, h)
+	}
+	sort.Slice(hs, func(a, b int) bool { return hs[a] < hs[b] })
+	maxRound := uint32(0)
+	nDecided := 0
+	for _, h := range hs {
+		var decs []string
+		for _, k := range decided[h] {
+			decs = append(decs, k)
+		}
+		sort.Strings(decs)
+		if len(decs) > 0 {
+			nDecided++
+		}
+		line := vfTraceLine(net, h, decs)
+		o.Op("agree", line, "good")
+		for _, e := range net.trace[h] {
+			if e.round > maxRound {
+				maxRound = e.round
+			}
+		}
+		if c < 2 && h == hs[0] {
+			o.Sample(desc + " :: " + line)
+		}
+	}
+	o.Stat(fmt.Sprintf("validators.%d", n))
+	o.Stat(fmt.Sprintf("byzantine.%d", nbyz))
+	o.StatN("heights.decided", nDecided)
+	if maxRound > 1 {
+		o.Stat("schedules.with-round>1")
+	}
+	o.Case(desc, nDecided > 0)
+}
+
+// vfDirectedKind decides whether case c of this shard is a directed scenario and which one; the
+// directed cases have their own PRNG stream, the random cases keep theirs.
+func vfDirectedKind(seed uint64, c int) (string, *vfRand) {
+	dr := vfFork(seed^0xD1EC7ED0, uint64(c))
+	switch env := os.Getenv("VERIF_DIR"); env {
+	case "":
+	case "none":
+		return "", nil
+	case "all":
+		return vfDirKinds[c%len(vfDirKinds)], dr
+	default:
+		return env, dr
+	}
+	if c < len(vfDirKinds) {
+		return vfDirKinds[c], dr
+	}
+	if dr.Chance(15) {
+		return vfDirKinds[dr.Intn(len(vfDirKinds))], dr
+	}
+	return "", nil
+}
+
+// vfDirectedCase runs one directed scenario and then the standard end-of-case checks.
+func vfDirectedCase(t *testing.T, o *vfOut, seed uint64, c int, kind string, r *vfRand) {
+	tag := fmt.Sprintf("seed=%d case=%d", seed, c)
+	desc := tag + " directed=" + kind
+	vfGuard(o, "panic-in-consensus", func() string { return desc }, func() {
+		net, dd, healed, err := vfRunDirected(o, r, kind, tag)
+		if err != nil {
+			t.Fatalf("network construction failed: %v", err)
+		}
+		desc = dd
+		decided := map[uint64]map[int]string{}
+		viol := vfCheckAgreement(net, decided)
+		if !healed && viol == "" {
+			detail := ""
+			for _, nd := range net.nodes {
+				detail += fmt.Sprintf(" [node%d H=%d R=%d step=%d stored=%d locked=%v]", nd.idx, nd.cs.Height, nd.cs.Round, nd.cs.Step, nd.bo.Height(), nd.cs.LockedBlock != nil)
+			}
+			o.Viol("directed-no-decision-after-heal", desc+detail)
+		}
+		nbyz := 0
+		for range net.byz {
+			nbyz++
+		}
+		vfEndOfCase(o, net, decided, desc, viol, c, len(net.keys), nbyz)
+	})
 }
 
 func vfSortedKeys(m map[int]bool) []int {
